@@ -1,5 +1,6 @@
 import SeqVerif.Model.HistAssoc
 import SeqVerif.Model.ApiAsync
+import SeqVerif.Model.ProxyAsync
 import SeqVerif.Extracted.C19
 /-!
 # C19 - a finished asynchronous search equals the synchronous one and survives restarts
@@ -96,6 +97,28 @@ theorem c19_request_eq_sync (s : StoreCfg) (hcold : s.hot = false) (hmh : s.maxH
         (fracSearch (p.cfg s) · maxInt32))).hist k = histGet q.hist k) :=
   async_request_eq_sync s hcold hmh fs hok r p hp hsize
 
+/-! ## the proxy's fan-out (Model/ProxyAsync.lean) -/
+
+open SV.ProxyAsync in
+/-- **The proxy reports done only if every shard that accepted the search reported done, and then the merged result is
+the merge of the shards' results.**  Every shard has one replica that accepted the search (`AllAccepted`: the replicas
+tried before it answer `NotFound`, it does not - it persisted the request).  If `FetchAsyncSearchResult` answers at all,
+each of those replicas answered (`Paired`: no shard is dropped - an unreachable or failing one makes the whole fetch
+fail), `done` is the conjunction of their `Done` flags, and the result is `MergeQPRs` of exactly their results. -/
+theorem c19_proxy_done_sound (desc : Bool) (size hi : Nat) (shards : List (List ROut)) (accs : List Nat)
+    (hacc : AllAccepted shards accs) (done : Bool) (q : QPR) (h : proxyFetch desc size hi shards = .ok done q) :
+    ∃ rs : List (Bool × QPR), Paired shards accs rs ∧
+      done = rs.all (·.1) ∧ q = mergeQPRs desc ⟨[], 0, none⟩ (rs.map (·.2)) size hi :=
+  proxyFetch_sound desc size hi shards accs hacc done q h
+
+open SV.ProxyAsync in
+/-- what the accepting replica's answer means for its shard: an answer, or the end of the whole fetch - never silence -/
+theorem c19_proxy_shard (outs : List ROut) (acc : Nat) (h : Accepted outs acc) :
+    fetchShard outs = match outs[acc]? with
+      | some (.ok d q) => .resp d q
+      | _ => .fail :=
+  fetchShard_accepted outs acc h
+
 /-- **c19_resume.**  For every number `k ≥ 1` of atomic writes completed before the process dies (the request info is
 the first one), restart + resume ends with exactly the files of an uninterrupted run - hence the same fetched
 result.  Fraction names are distinct.  (`k = 0`: the request was never persisted nor acknowledged.) -/
@@ -178,6 +201,16 @@ theorem c19_x_persisted_fractions :
     resumeCalls = ["as.processRequest"] ∧ doSearchFractionLoop = ["state.Fractions"] ∧
     fractionsWrites = ["StartSearch: Fractions: fracsToSearch"] := by decide
 
+/-- the proxy's `FetchAsyncSearchResult`: only `NotFound` passes over a replica, any other error ends the fetch, `done`
+starts true and is cleared by every shard that is not done, no answer at all is `NotFound`, the merge is cut at `r.Size`;
+`StartAsyncSearch`: next replica on error, stop at the first that accepts, fail when none did -/
+theorem c19_x_proxy_fanout :
+    proxyFetchAsyncSearchResult = ["done := true", "anyResponse := false", "if err != nil { return }",
+      "if status.Code(err) == codes.NotFound { continue }", "break", "if err != nil { continue }",
+      "if !storeResp.Done { done = false }", "if !anyResponse { return }",
+      "seq.MergeQPRs(&qpr, qprs, r.Size, histInterval, order)"] ∧
+    proxyStartAsyncSearch = ["if err != nil { continue }", "break", "if err != nil { return }"] := by decide
+
 /-- the source contains the repaired fold (the model used by `c19_eq_sync_hist`) -/
 theorem c19_x_fetch_fixed : fetchUsesRequestInterval = true := by decide
 
@@ -219,6 +252,14 @@ example :
 /-- a request with an "open" upper bound (-1), a window start above 2^63 and interval 1000, ascending -/
 example : SV.Async.asyncParams ⟨-9223372036854775803, -1, 1000, 1⟩
     = some ⟨9223372036854775813, 18446744073709551615, 2147483647, 1000, false, false, false⟩ := by decide
+
+/-- two shards; shard 0's second replica accepted (the first answers NotFound), shard 1's only replica accepted -/
+example : SV.ProxyAsync.AllAccepted [[.notFound, .ok true ⟨[7], 0, some []⟩], [.ok false ⟨[5], 0, some []⟩]] [1, 0] ∧
+    SV.ProxyAsync.proxyFetch true 10 0 [[.notFound, .ok true ⟨[7], 0, some []⟩], [.ok false ⟨[5], 0, some []⟩]]
+      = .ok false ⟨[7, 5], 0, some []⟩ := by
+  refine ⟨⟨⟨by decide, fun j hj => ?_, by decide⟩, ⟨by decide, fun j hj => absurd hj (by omega), by decide⟩, trivial⟩, by decide +kernel⟩
+  have : j = 0 := by omega
+  subst this; rfl
 
 /-- a three-fraction layout satisfying the hypotheses of `c19_eq_sync_*` -/
 example : (docsOf [(⟨2, 20, 40, [key 40 0, key 20 1]⟩ : Frac), ⟨2, 10, 30, [key 30 1, key 10 0]⟩, ⟨2, 5, 25, [key 25 0, key 5 7]⟩]).Nodup ∧
